@@ -1149,6 +1149,15 @@ func (s *c15Sim) oracle(ops []*c15Op) *Violation {
 		}
 	}
 
+	// (2a) an instance is told it holds the lease only by the store: a campaign or renewal that reports success without
+	// the store having executed anything for it answered from the instance's own memory of an earlier grant
+	for _, o := range ops {
+		if o.Done && !o.Executed && (o.Kind == "campaign" || o.Kind == "renew") && o.success() {
+			return s.viol("C15.told_without_store", "an instance was told it is leader without the lease store being asked",
+				"%s of %s returned success at %s although the store executed no request for it: the answer cannot reflect who holds the lease now. History (store order):%s", o.Kind, s.cs[o.Who].id, s.rel(o.RetNs), hist(nil))
+		}
+	}
+
 	// (2b) runcluster strata: the real runCluster starts the leader body of an instance only on the strength of a grant
 	// it has just received. A leader body that starts a whole lease period (or more) after the instance's last
 	// election call returned acts on a lease that, by the store's own clock, is over - whoever holds it now.
